@@ -5,7 +5,6 @@ import (
 	"fmt"
 	"math"
 	"math/rand"
-	"os"
 	"sort"
 	"time"
 
@@ -24,6 +23,11 @@ import (
 //	      UDist{N,K,T} (kind 1), KDE{Sample: Xs, Bandwidth: B} (kind 2) — relational against their own CDF
 //	op 5  supporting evidence: Kolmogorov-Smirnov distance of N draws of stats.Rand(c07PW) from
 //	      rand.New(rand.NewSource(Seeds[0])) to the distribution's own CDF
+//	op 7  stats.Rand of a relational-kind distribution (harness/c07_dists.go) with a scripted rand.Source
+//
+// ops 0 and 4 with Step != 0: the SAME piecewise cdf (pure jumps on the lattice X0 + i*Step) behind a
+// value that implements the whole stats.DiscreteDist interface (PMF, Step) and still has no InvCDF /
+// Rand method; Bounds may cut a tail or be wider than the support.
 type c07Knot struct {
 	X F64 `json:"x"` // break point
 	L F64 `json:"l"` // left limit of the cdf at X
@@ -46,6 +50,7 @@ type c07Case struct {
 	Src   []int64   `json:"src,omitempty"`
 	T     []int     `json:"t,omitempty"`
 	Xs    []F64     `json:"xs,omitempty"`
+	Step  F64       `json:"step,omitempty"`
 }
 
 // c07PW implements stats.DistCommon (CDF, Bounds) and nothing else: no InvCDF, no Rand method.
@@ -74,7 +79,9 @@ func (d *c07PW) CDF(x float64) float64 {
 	if hi == lo {
 		return lo
 	}
-	v := lo + (x-d.xs[i])*((hi-lo)/(d.xs[i+1]-d.xs[i]))
+	// the ratio is in [0,1] whatever the magnitude of the break points (2^-1000 .. 2^1022): nothing
+	// overflows or becomes subnormal; every operation is monotone in x
+	v := lo + ((x-d.xs[i])/(d.xs[i+1]-d.xs[i]))*(hi-lo)
 	if v > hi {
 		v = hi
 	}
@@ -84,6 +91,59 @@ func (d *c07PW) CDF(x float64) float64 {
 	return v
 }
 func (d *c07PW) Bounds() (float64, float64) { return d.bl, d.bh }
+
+// break points: 0 or 2^-1002 <= |x| <= MaxFloat64 (quarter steps of the smallest scale are still normal
+// numbers); the difference of two neighbouring break points must not overflow
+var c07MaxX, c07MinX = math.MaxFloat64, math.Ldexp(1, -1002)
+
+// c07DiscPW: a pure-jump c07PW as a stats.DiscreteDist (PMF, Step); no InvCDF, no Rand
+type c07DiscPW struct {
+	*c07PW
+	step float64
+}
+
+func (d c07DiscPW) Step() float64 { return d.step }
+func (d c07DiscPW) PMF(x float64) float64 {
+	// "x rounded down to the nearest defined point"
+	k := math.Floor((x - d.xs[0]) / d.step)
+	x = d.xs[0] + k*d.step
+	for i, xi := range d.xs {
+		if xi == x {
+			if i == 0 {
+				return d.vs[0]
+			}
+			return d.vs[i] - d.vs[i-1]
+		}
+	}
+	return 0
+}
+
+var _ stats.DiscreteDist = c07DiscPW{}
+
+// the distribution of ops 0, 4: the plain DistCommon, or the DiscreteDist when Step != 0
+func c07MakeDist(c *c07Case) (stats.DistCommon, *c07PW, error) {
+	d, err := c07MakePW(c)
+	if err != nil {
+		return nil, nil, err
+	}
+	st := float64(c.Step)
+	if st == 0 {
+		return d, d, nil
+	}
+	if !(st > 0) || math.IsInf(st, 0) {
+		return nil, nil, fmt.Errorf("bad step")
+	}
+	for i := range d.xs {
+		k := (d.xs[i] - d.xs[0]) / st
+		if k != math.Floor(k) || k > 1e6 || math.Abs(d.xs[i]) > 1e15 || d.xs[0]+k*st != d.xs[i] {
+			return nil, nil, fmt.Errorf("break points must be on the lattice x0 + i*step")
+		}
+		if i > 0 && d.ls[i] != d.vs[i-1] {
+			return nil, nil, fmt.Errorf("a discrete distribution has no ramps")
+		}
+	}
+	return c07DiscPW{d, st}, d, nil
+}
 
 func c07MakePW(c *c07Case) (*c07PW, error) {
 	n := len(c.Knots)
@@ -97,8 +157,11 @@ func c07MakePW(c *c07Case) (*c07PW, error) {
 	prevX, prevV := math.Inf(-1), 0.0
 	for i, k := range c.Knots {
 		x, l, v := float64(k.X), float64(k.L), float64(k.V)
-		if math.IsNaN(x) || math.Abs(x) > 1e12 || !(x > prevX) {
+		if math.IsNaN(x) || math.Abs(x) > c07MaxX || (x != 0 && math.Abs(x) < c07MinX) || !(x > prevX) {
 			return nil, fmt.Errorf("break points must be finite and increasing")
+		}
+		if i > 0 && math.IsInf(x-prevX, 0) {
+			return nil, fmt.Errorf("break points too far apart")
 		}
 		if !(l >= prevV && v >= l && v <= 1) || (i == 0 && l != 0) {
 			return nil, fmt.Errorf("levels must be non-decreasing from 0 to 1")
@@ -166,12 +229,12 @@ func c07Run(raw []byte) (*Line, error) {
 	l.I(7).I(c.Op)
 	switch c.Op {
 	case 0:
-		d, err := c07MakePW(&c)
+		dist, d, err := c07MakeDist(&c)
 		if err != nil {
 			return nil, err
 		}
 		l.c07PW(d)
-		c07Items(l, stats.InvCDF(d), c.Ys)
+		c07Items(l, stats.InvCDF(dist), c.Ys)
 	case 1:
 		p := float64(c.P)
 		if c.N < 0 || c.N > 200 || !(p >= 0 && p <= 1) {
@@ -235,7 +298,7 @@ func c07Run(raw []byte) (*Line, error) {
 			}
 		}
 	case 4:
-		d, err := c07MakePW(&c)
+		dist, d, err := c07MakeDist(&c)
 		if err != nil {
 			return nil, err
 		}
@@ -261,7 +324,7 @@ func c07Run(raw []byte) (*Line, error) {
 		}
 		src := &c07Src{vals: append([]int64(nil), c.Src...)}
 		var draw float64
-		pan, _ := catch(func() { draw = stats.Rand(d)(rand.New(src)) })
+		pan, _ := catch(func() { draw = stats.Rand(dist)(rand.New(src)) })
 		st := 0
 		if pan {
 			st = 2
@@ -270,69 +333,15 @@ func c07Run(raw []byte) (*Line, error) {
 		if src.pos >= 1 {
 			y = float64(c.Src[src.pos-1]) / (1 << 63)
 		}
-		ist, inv := c07Call(stats.InvCDF(d), y) // a separate closure, a separate call
+		ist, inv := c07Call(stats.InvCDF(dist), y) // a separate closure, a separate call
 		l.I(st).I(src.pos).F(y).F(draw).I(ist).F(inv)
 	case 6:
-		var dist stats.DistCommon
-		switch c.Kind {
-		case 0:
-			v := float64(c.A)
-			if !(v >= 0.5 && v <= 1e4) {
-				return nil, fmt.Errorf("bad degrees of freedom")
-			}
-			dist = stats.TDist{V: v}
-		case 1:
-			if c.N < 1 || c.K < 1 || c.N > 8 || c.K > 8 {
-				return nil, fmt.Errorf("bad sample sizes")
-			}
-			if c.T != nil {
-				sum := 0
-				for _, t := range c.T {
-					if t < 1 {
-						return nil, fmt.Errorf("bad tie vector")
-					}
-					sum += t
-				}
-				if sum != c.N+c.K {
-					return nil, fmt.Errorf("bad tie vector")
-				}
-			}
-			dist = stats.UDist{N1: c.N, N2: c.K, T: c.T}
-		case 2:
-			xs := fromF64s(c.Xs)
-			b := float64(c.B)
-			if len(xs) < 1 || len(xs) > 64 || !(b > 0 && b < 1e6) {
-				return nil, fmt.Errorf("bad kde")
-			}
-			for _, x := range xs {
-				if math.IsNaN(x) || math.Abs(x) > 1e7 {
-					return nil, fmt.Errorf("bad kde sample")
-				}
-			}
-			dist = &stats.KDE{Sample: stats.Sample{Xs: xs}, Bandwidth: b}
-		default:
-			return nil, fmt.Errorf("bad kind")
+		if err := c07RunRel(l, &c); err != nil {
+			return nil, err
 		}
-		var bl, bh, cbl, cbh float64
-		if pan, msg := catch(func() {
-			bl, bh = dist.Bounds()
-			cbl, cbh = dist.CDF(bl), dist.CDF(bh)
-		}); pan {
-			return nil, fmt.Errorf("distribution unusable: %s", msg)
-		}
-		l.I(c.Kind).F(bl).F(bh).F(cbl).F(cbh)
-		inv := stats.InvCDF(dist)
-		l.I(len(c.Ys))
-		for _, y := range c.Ys {
-			st, x := c07Call(inv, float64(y))
-			xm, c0, cm := math.NaN(), math.NaN(), math.NaN()
-			if st == 0 && !math.IsNaN(x) && !math.IsInf(x, 0) {
-				xm = x - (1e-9*math.Abs(x) + 1e-15)
-				if pan, _ := catch(func() { c0, cm = dist.CDF(x), dist.CDF(xm) }); pan {
-					st = 2
-				}
-			}
-			l.F(float64(y)).I(st).F(x).F(xm).F(c0).F(cm)
+	case 7:
+		if err := c07RunRandRel(l, &c); err != nil {
+			return nil, err
 		}
 	case 5:
 		d, err := c07MakePW(&c)
@@ -406,8 +415,11 @@ func c07GenPW(rng *rand.Rand) (knots []c07Knot, step float64) {
 	default:
 		c = 1e6 * float64(2*rng.Intn(2)-1)
 	}
-	// step scale 2^e: narrow and wide; mostly comparable to |c| so that the tolerance means something
+	// step scale 2^e: narrow and wide; mostly comparable to |c|.  At c = 0 any scale down to 2^-1000
 	e := rng.Intn(37) - 20 // -20..16
+	if c == 0 && rng.Intn(3) == 0 {
+		e = -20 - rng.Intn(980)
+	}
 	if c != 0 && rng.Intn(10) < 6 {
 		_, ce := math.Frexp(math.Abs(c))
 		e = ce - 1 - rng.Intn(8)
@@ -697,17 +709,16 @@ func c07Gen(tier string, rng *rand.Rand, emit func(interface{})) {
 			}
 		}
 	}
-	// opt-in (VERIF_C07_TINY=1): distributions narrower than 1e-7 located at 0, where bisectBool's
-	// absolute xtol = 1e-16 limits the relative accuracy (reported under verdict code 10)
-	if os.Getenv("VERIF_C07_TINY") != "" {
-		for _, e := range []int{-24, -30, -40, -50, -70} {
-			w := math.Ldexp(1, e)
-			ys := toF64s([]float64{0.5, 0.25, 0.75, 0.3, 0.7, 0, 1})
-			emit(c07Case{Op: 0, Knots: []c07Knot{{X: 0, L: 0, V: 0}, {X: F64(w), L: 1, V: 1}}, Bl: 0, Bh: F64(w), Ys: ys})
-			emit(c07Case{Op: 0, Knots: []c07Knot{{X: F64(w), L: 0, V: 1}}, Bl: F64(w), Bh: F64(w), Ys: ys})
-			emit(c07Case{Op: 0, Knots: []c07Knot{{X: F64(-w), L: 0, V: 0.5}, {X: F64(w), L: 0.5, V: 1}}, Bl: F64(-w), Bh: F64(w), Ys: ys})
-		}
+	// distributions narrower than 1e-7 located at 0: an absolute bisection tolerance (xtol = 1e-16, the
+	// defect repaired by /repo bbd6d19) limits the RELATIVE accuracy there
+	for _, e := range []int{-24, -30, -40, -50, -70} {
+		w := math.Ldexp(1, e)
+		ys := toF64s([]float64{0.5, 0.25, 0.75, 0.3, 0.7, 0, 1})
+		emit(c07Case{Op: 0, Knots: []c07Knot{{X: 0, L: 0, V: 0}, {X: F64(w), L: 1, V: 1}}, Bl: 0, Bh: F64(w), Ys: ys})
+		emit(c07Case{Op: 0, Knots: []c07Knot{{X: F64(w), L: 0, V: 1}}, Bl: F64(w), Bh: F64(w), Ys: ys})
+		emit(c07Case{Op: 0, Knots: []c07Knot{{X: F64(-w), L: 0, V: 0.5}, {X: F64(w), L: 0.5, V: 1}}, Bl: F64(-w), Bh: F64(w), Ys: ys})
 	}
+	c07GenExtra(tier, rng, emit)
 	// (a) random piecewise distributions
 	for i := 0; i < 1800*mul; i++ {
 		knots, step := c07GenPW(rng)
